@@ -698,6 +698,7 @@ namespace sim
             g->ev({ "state", vm->id, (int)rt.runtime_state(), (uint64_t)(rt.context_end() - rt.context_begin()), rt.__runtime_error() ? 1 : 0, (uint64_t)rt.log_messages.size() });
         }
         else if (d == "par") step_par(st);
+        else if (d == "mark") g->ev({ "mark", st.value("idx", 0) });
         else if (d == "yield") thread_yield(102);
         else if (step_api(st)) {}
         else if (step_cli(st)) {}
